@@ -2,7 +2,7 @@
 From Coq Require Import Reals List.
 From Coq Require String.
 From BLE Require Import Num.InstR Model.GMM Model.KMeans Generated.Facts
-     Proofs.RLemmas Proofs.GMMLik Proofs.GMMStats Proofs.KMeansR Proofs.Chunks Proofs.FactsDefs Proofs.Sched.
+     Model.FA Proofs.RLemmas Proofs.GMMLik Proofs.GMMStats Proofs.KMeansR Proofs.Chunks Proofs.FAEnroll Proofs.FAAcc Proofs.FactsDefs Proofs.Sched.
 Import ListNotations.
 Open Scope R_scope.
 
@@ -24,6 +24,26 @@ Theorem C04_kmeans_variances_weights_independent_of_chunking (nf : nat) (cents :
   Forall (KMeansR.rows_ok nf) chunks -> KR.var_weights nf cents chunks = KR.var_weights nf cents [concat chunks].
 Proof. exact (var_weights_chunk_independent nf cents chunks). Qed.
 Print Assumptions C04_kmeans_variances_weights_independent_of_chunking.
+
+(* ISV / JFA from labelled arrays: the Dask branch computes the accumulators per class and adds them
+   (reduce_iadd); that equals the accumulators of the in-memory loop over all classes, for any split of the classes *)
+Theorem C04_fa_accumulators_additive_over_classes inv (C D rU rV : nat) (u : FR.ubm) (F : FR.fa)
+        (cl1 cl2 : list (list FR.gstat)) (ys1 ys2 zs1 zs2 zf1 zf2 : list (option (list R))) :
+  ubm_ok C D u -> fa_ok C D rU rV F ->
+  (forall A, length (inv A) = rU /\ Forall (fun r => length r = rU) (inv A)) ->
+  (forall A, length (inv A) = rV /\ Forall (fun r => length r = rV) (inv A)) ->
+  classes_ok C D cl1 -> classes_ok C D cl2 ->
+  length ys1 = length cl1 -> length zs1 = length cl1 -> length zf1 = length cl1 ->
+  length ys2 = length cl2 -> length zs2 = length cl2 -> length zf2 = length cl2 ->
+  FR.acc_u inv rU D u F (cl1 ++ cl2) (ys1 ++ ys2) (zs1 ++ zs2) (zf1 ++ zf2)
+  = acc_w_add (FR.acc_u inv rU D u F cl1 ys1 zs1 zf1) (FR.acc_u inv rU D u F cl2 ys2 zs2 zf2)
+  /\ FR.acc_v inv rU rV D u F (cl1 ++ cl2) = acc_w_add (FR.acc_v inv rU rV D u F cl1) (FR.acc_v inv rU rV D u F cl2).
+Proof.
+  intros Hu HF H1 H2 Hc1 Hc2 L1 L2 L3 L4 L5 L6. split.
+  - exact (acc_u_app inv C D rU rV u F Hu HF H1 H2 cl1 cl2 ys1 ys2 zs1 zs2 zf1 zf2 Hc1 Hc2 L1 L2 L3 L4 L5 L6).
+  - exact (acc_v_app inv C D rU rV u F Hu HF H1 H2 cl1 cl2 Hc1 Hc2).
+Qed.
+Print Assumptions C04_fa_accumulators_additive_over_classes.
 
 (* ---- task order: every valid execution order of the task graph computes the same values *)
 Theorem C04_any_valid_task_order (V : Type) (dflt : V) (g : graph V) (sched : list nat) :
